@@ -26,6 +26,10 @@ def run(tier, seed):
     for ob in binding.obligations(only=('simulation',)):
         if any(x in ob.id for x in ('discrete', 'percolat')):
             rep.add(ob)
+    from ..replay import sim_native
+    rep.bounded_is_supplementary = True
+    rep.add(util.native_ob('native:generation-recurrence-oracle', 'EoN/simulation.py:discrete_SIR', sim_native.c12_native,
+                           '4 graphs x 4 deterministic rules x 4 seed/recovered placements x tmin in {0,3,-2}: per-node histories vs BFS layers, rows, a recovery rule, the Bernoulli rule with a scripted random source'))
     rep.explanation = ('discrete_SIR: the generation loops carry the invariant "new_infecteds = nodes susceptible at step start reached by a '
                        'successful contact from an infectious node" (the BFS layer recurrence in the digraph of successful contacts; the rule is '
                        'asked with (u, v, *args) and only about susceptible v), every infectious node recovers after one step unless the recovery '
@@ -36,4 +40,4 @@ def run(tier, seed):
                         'distinct / disjoint initial sets; rho not combined with initial_recovereds']
     rep.not_covered += ['basic_discrete_SIS loop is not under contract yet; percolate_network: same nodes, symmetric sub-graph of G, each edge decided by its own U01 draw compared with p',
                         'return_full_data=True paths of discrete_SIR']
-    return rep, None
+    return rep, util.native_replayer
